@@ -68,3 +68,19 @@ Definition event_eqb (a b : event) : bool :=
   && N.eqb (e_kind a) (e_kind b) && opt_eqb pkey_eqb (e_key a) (e_key b)
   && opt_eqb N.eqb (e_parent a) (e_parent b) && list_eqb pkey_eqb (e_path a) (e_path b)
   && list_eqb (opt_eqb N.eqb) (e_ancs a) (e_ancs b).
+
+(* identities occurring in a tree; a tree of pointers cannot contain a node below itself *)
+Definition slot_ids (ids : gnode -> list N) (s : slot) : list N :=
+  match s with One _ None => [] | One _ (Some c) => ids c | Many _ l => flat_map ids l end.
+Fixpoint ids (n : gnode) : list N :=
+  match n with GNode id _ slots => id :: flat_map (slot_ids ids) slots end.
+Definition desc_ids (n : gnode) : list N := flat_map (slot_ids ids) (g_slots n).
+
+Definition slot_all (f : gnode -> bool) (s : slot) : bool :=
+  match s with One _ None => true | One _ (Some c) => f c | Many _ l => forallb f l end.
+(* no node has the identity of one of its descendants *)
+Fixpoint tree_ok (n : gnode) : bool :=
+  match n with
+  | GNode id _ slots =>
+    negb (existsb (N.eqb id) (flat_map (slot_ids ids) slots)) && forallb (slot_all tree_ok) slots
+  end.
